@@ -44,4 +44,30 @@ META.update({
   "technique": "runtime monitoring: per-pass invariants on reload ids / watcher answers and an instrumented source's read log checked against the model",
  },
 })
+META.update({
+ "C09": {
+  "text": "Fault enumeration: for generated recipe DAGs a clean run lists every source read and every loader invocation of the phase under test (initial load on the calling thread; reload pass on the reloader thread); one run per read x 6 io::ErrorKinds and per loader invocation x {Err, panic}, each compared step by step (result of the faulted call, presence and value of every key, reload ids) with the reference model given the same fault, followed by a recording probe (a compound loaded afterwards must still be reloaded when its file changes), repair and retry. Loader panics on the reloader thread run in a child process whose observer turns 'caller blocked while no reloader thread exists' into positive evidence.",
+  "design_ref": "DESIGN.md §5 C09, §3.10",
+  "note": "On the reloader thread a fault point is (entry, every read during the pass), because which of two independent assets performs the n-th read of a shared file depends on hash order; on the calling thread it is (entry, n-th read). Single faults only.",
+  "technique": "runtime monitoring: fault injection at every enumerated read / loader invocation with a reference-model oracle and a /proc-based blocked-caller observer",
+ },
+ "C10": {
+  "text": "Every history up to length 4 (quick) / 5 (thorough) over {load, remove, take, clear, get_or_insert, edit+notify+barrier+hot_reload} on one key, closed by a final notified edit, for a reloadable leaf, a type that opts out, a compound and a storable-only payload, on caches built with_source, without_hot_reloading, over a source without hot-reloading support and one whose configuration fails, plus enhance_hot_reloading mode and random longer histories: after every pass value, token, reload id and Handle::get() address/content of every protected entry are unchanged.",
+  "design_ref": "DESIGN.md §5 C10",
+  "note": "Protected = created by get_or_insert, of a type with HOT_RELOADED = false, or held by a cache without reloader. LocalAssetCache is covered by C02 (it has no reloader and cannot receive notifications).",
+  "technique": "runtime monitoring: invariant on hooked state (value/token/reload id/address) over bounded-exhaustive API+notification histories",
+ },
+ "C13": {
+  "text": "A token ledger (one atomic per value) makes creation and drop observable: after every step of random API histories over payloads of different size/alignment (ZST, u8, heap-owning, align(64), 4 KiB) on every front-end, and after every step and pass of reload histories, exactly the tokens of the cached entries are alive and nothing was dropped twice; a reader holding a guard across a pending reload pins the old value; N-thread insertion races leave one value alive and every loser dropped by the time its call returned; an accounting allocator brackets create-use-drop of whole caches; the full (stored, requested) type matrix through is / downcast_ref / AssetReadGuard::downcast / get_cached never reinterprets. ASan and Miri run the same workloads.",
+  "design_ref": "DESIGN.md §5 C13, §3.4, §3.5",
+  "note": "Allocator brackets use caches without reloader (thread exit is asynchronous). Miri runs are small.",
+  "technique": "runtime monitoring: drop/creation ledger + accounting allocator + ASan/Miri over model-checked histories and races",
+ },
+ "C14": {
+  "text": "Recipes enumerated as wrapper-chain(atom)+trailing-op (chains up to length 2 over no_record / helper thread / second reloading cache / cache without reloader / helper thread on the second cache / catch_unwind around a panicking nested load / around a direct panic; 9 atoms; 3 trailing ops: 1539 recipes, sampled in quick, all in thorough) plus random deeper nestings; after loading, one single-entry edit per involved file in both reloading caches, each its own pass: the set of handles whose reload id moved must equal the model's set exactly and nothing else may change.",
+  "design_ref": "DESIGN.md §5 C14",
+  "note": "Panics are only generated inside catch_unwind (an uncaught loader panic is C09's subject).",
+  "technique": "runtime monitoring: exact reloaded-set oracle from the reference model over enumerated recipe nestings and single-entry edits",
+ },
+})
 NOT_BUILT = {}
